@@ -249,10 +249,11 @@ pub fn judge_b(ctx: &Ctx, sc: &ScenarioB, out: &mut OutcomeB) {
             // the cancellation must take effect at the poll at which the flag first reads true
             for t in &out.steps {
                 let Some(st) = sc.steps.get(t.index) else { continue };
-                if let (Some(k), false) = (st.stop_at_poll, st.go.timed()) {
-                    let seen_at = t.rec.first_stop.map(|p| p.0).or(t.rec.forced_at.map(|p| p.0));
+                if let Some(k) = st.stop_at_poll {
+                    // (a time limit may legitimately end the search before poll k; later than k is never right)
+                    let seen_at = t.rec.first_stop.map(|p| p.0);
                     if let Some(p) = seen_at {
-                        if p != k {
+                        if p > k {
                             out.found.push(Found { class: "stop-late".into(), message: format!("search #{}: flag true from poll {k} on, the search reacted at poll {p}", t.index), signature: "stop-late".into() });
                             break;
                         }
@@ -850,12 +851,23 @@ pub fn gen_c09(ctx: &Ctx, run: u64) -> C09Plan {
     }
     let mate_bias = rng.chance(1, 3);
     let (fen, moves) = gen_position(&mut rng, mate_bias);
-    let via_clock = rng.chance(1, 3);
+    // the cancelled search runs under each kind of limit (depth only / fixed move time / clocks, the
+    // time limits far in the future), and the cancellation reaches it through the stop flag or —
+    // for the timed kinds — through the simulated clock jumping past the limit at poll k
     let mut go = GoSpec::depth(target_depth);
-    if via_clock {
-        // a limit far in the future; the simulated clock is made to jump past it at poll k
-        go.movetime = Some(3_600_000);
+    let kind = rng.below(3);
+    match kind {
+        1 => go.movetime = Some(3_600_000),
+        2 => {
+            go.wtime = Some(7_200_000);
+            go.btime = Some(7_200_000);
+            if rng.chance(1, 2) {
+                go.movestogo = Some(1);
+            }
+        }
+        _ => {}
     }
+    let via_clock = kind != 0 && rng.chance(1, 2);
     let target = steps.len();
     steps.push(SearchStep {
         fen: fen.clone().unwrap_or_else(|| super::corpus::STARTPOS.to_string()),
